@@ -137,7 +137,7 @@ def renderBool (f : Str → Bool) (s : Str) : String := if f s then "1" else "0"
 /-- `line US k=v US k=v …`: compare the line and every binding of the real map -/
 def checkSrm (s : Str) (expected : String) : Bool :=
   let parts := expected.splitOn "\x1f"
-  let r := stringReplaceMap s
+  let r := stringReplaceMap s true
   match parts with
   | [] => false
   | line :: kvs =>
